@@ -19,7 +19,7 @@ from engine.canon import roles_for
 from engine.cfg import CFG, relations
 from engine.extract import Request
 from engine.loops import describe, name_induction_variables
-from engine.tree import key
+from engine.tree import key, root_of_lvalue, written_lvalues
 
 D = "src/recon_buildblock/"
 
@@ -414,6 +414,59 @@ def rule_e(ctx, fns):
     return n
 
 
+def rule_f_range_wrappers(ctx, fns, kind):
+    """The convenience overloads project(viewgrams[, axial range[, tangential range]]) of the projector base classes must hand the
+    caller's viewgrams and ranges unchanged to the implementation (missing ranges = the viewgrams' full ranges, slot by slot) and must
+    not write the viewgrams themselves: otherwise bins outside the requested sub-range change, or pieces do not add up to the whole."""
+    SLOTS = ["get_min_axial_pos_num", "get_max_axial_pos_num", "get_min_tangential_pos_num", "get_max_tangential_pos_num"]
+    short = "forward_project" if kind == "forward" else "back_project"
+    n = 0
+    for f in fns:
+        if f.short != short or f.body is None:
+            continue
+        vg = [p for p in f.params if "RelatedViewgrams" in p["t"]]
+        if len(vg) != 1 or any("ProjData" in p["t"] for p in f.params):
+            continue
+        vk = "v%d" % vg[0]["d"]
+        ints = [p for p in f.params if p["t"].replace("const ", "").strip() == "int"]
+        if len(ints) not in (0, 2, 4):
+            continue
+        fid = f.qn + "(" + f.sig[:60] + ")"
+        dele = [c for c in f.calls() if (c.callee or "").split("::")[-1] in (short, "actual_" + short) and any(key(a.strip()) == vk for a in c.call_args())]
+        if len(dele) != 1:
+            ctx.ob("C04.f-range-wrappers", fid, "delegates-once", False, f.where(), "%d delegating calls" % len(dele))
+            n += 1
+            continue
+        c = dele[0]
+        args = [a.strip() for a in c.call_args()]
+        rng = args[-4:] if len(args) >= 5 else []
+        ok = len(rng) == 4
+        det = []
+        for i, a in enumerate(rng):
+            k = key(a)
+            if i < len(ints):
+                if k != "v%d" % ints[i]["d"]:
+                    ok = False
+                    det.append("range slot %d receives %s instead of the caller's parameter %s" % (i, key(a, True), ints[i]["n"]))
+            else:
+                if k != "%s.%s()" % (vk, SLOTS[i]):
+                    ok = False
+                    det.append("range slot %d receives %s instead of viewgrams.%s()" % (i, key(a, True), SLOTS[i]))
+        ctx.ob("C04.f-range-wrappers", fid, "ranges-passed-through", ok, c.where(), "the implementation receives the caller's viewgrams and (axial, tangential) ranges slot by slot" if ok else "; ".join(det) or "delegation does not pass four range arguments")
+        n += 1
+        # nothing else writes the viewgrams (or anything reached through them)
+        from engine.algebra import LocalDefs
+        from engine.sibling import aliases
+
+        al = aliases(f, vk, LocalDefs(f))
+        wr = [m for m in f.walk() if m is not c and any(root_of_lvalue(e) in al for e in written_lvalues(m)) and not (m.k == "CXXMemberCallExpr" and (m.callee or "").split("::")[-1] in ("begin", "end"))]
+        wr = [m for m in wr if not (m.k in ("UnaryOperator", "CXXOperatorCallExpr") and m.op in ("++", "--"))]  # advancing an iterator
+        if kind == "forward":
+            ctx.ob("C04.f-range-wrappers", fid, "wrapper-writes-nothing", not wr, (wr[0] if wr else c).where(), "only the implementation writes the viewgrams" if not wr else "the wrapper itself modifies the viewgrams (line %d): bins outside the requested sub-range can change" % wr[0].line)
+            n += 1
+    return n
+
+
 def run(ctx):
     ctx.explanation = (
         "Decides structural necessary conditions only: (a) the row-level forward and back projection use the same elements under the same "
@@ -439,6 +492,8 @@ def run(ctx):
         rule_b(ctx, ff[0], bf[0])
     rule_c(ctx, [f for f in us[3].functions if f.body is not None])
     rule_d(ctx, [f for f in us[4].functions if f.body is not None])
+    nf = rule_f_range_wrappers(ctx, [f for f in us[3].functions if f.body is not None], "forward") + rule_f_range_wrappers(ctx, [f for f in us[4].functions if f.body is not None], "back")
+    ctx.require_count("C04.f-range-wrappers", 9)
     n = rule_e(ctx, [f for f in us[5].functions if f.body is not None])
     if n < 2:
         ctx.fail_broken("tangential sub-range rule matched %d functions (2 confirmed by hand)" % n)
